@@ -95,6 +95,53 @@ fn depth1(i: u64) -> Option<String> {
     None
 }
 
+/// thorough tier: every depth-2 expression over the small leaf set - `(a op1 b) op2 c`, `a op1 (b op2 c)` with the 16
+/// binary operators, and the three unary operators around every `a op b`
+fn depth2_count() -> u64 {
+    let m = SMALL.len() as u64;
+    let nb = BINOPS.len() as u64 + 1;
+    2 * m * m * m * nb * nb + 3 * m * m * nb
+}
+
+fn binop_text(i: u64) -> &'static str {
+    if (i as usize) < BINOPS.len() {
+        BINOPS[i as usize]
+    } else {
+        "//"
+    }
+}
+
+fn depth2(i: u64) -> Option<String> {
+    let m = SMALL.len() as u64;
+    let nb = BINOPS.len() as u64 + 1;
+    let mut i = i;
+    let block = m * m * m * nb * nb;
+    if i < 2 * block {
+        let shape = i / block;
+        i %= block;
+        let c = SMALL[(i % m) as usize];
+        i /= m;
+        let b = SMALL[(i % m) as usize];
+        i /= m;
+        let a = SMALL[(i % m) as usize];
+        i /= m;
+        let o2 = binop_text(i % nb);
+        let o1 = binop_text(i / nb);
+        return Some(if shape == 0 { format!("({} {} {}) {} {}", a, o1, b, o2, c) } else { format!("{} {} ({} {} {})", a, o1, b, o2, c) });
+    }
+    i -= 2 * block;
+    if i < 3 * m * m * nb {
+        let u = UNOPS[(i % 3) as usize];
+        i /= 3;
+        let b = SMALL[(i % m) as usize];
+        i /= m;
+        let a = SMALL[(i % m) as usize];
+        i /= m;
+        return Some(format!("{}({} {} {})", u, a, binop_text(i), b));
+    }
+    None
+}
+
 fn depth2_random(r: &mut Rng, leaves: &[&str]) -> String {
     fn go(r: &mut Rng, leaves: &[&str], depth: u32) -> String {
         if depth == 0 || r.chance(1, 5) {
@@ -325,19 +372,31 @@ impl Monitor for C08 {
     fn assumptions(&self) -> Vec<String> {
         vec!["a definite value claimed by the evaluator is accepted when it matches the execution under Lua 5.1 OR Luau semantics; executions that raise an error or depend on unpinned behaviour are not judged".into(), "number -> string spellings are accepted within the uncertainty band of DESIGN.md A1".into()]
     }
-    fn exhaustive_note(&self, _tier: Tier) -> Option<String> {
-        Some(format!("all {} depth-1 expressions", depth1_count()))
+    fn exhaustive_note(&self, tier: Tier) -> Option<String> {
+        if tier == Tier::Thorough {
+            Some(format!("all {} depth-1 expressions over the full leaf set and all {} depth-2 expressions over the small leaf set of {} (both nestings of two binary operators, unary operators around a binary)", depth1_count(), depth2_count(), SMALL.len()))
+        } else {
+            Some(format!("all {} depth-1 expressions", depth1_count()))
+        }
     }
     fn plan(&self, tier: Tier) -> Plan {
-        Plan { deterministic: (depth1_count() + BATCH - 1) / BATCH, max_cases: u64::MAX, budget_s: if tier == Tier::Quick { 45.0 } else { 900.0 } }
+        let d2 = if tier == Tier::Thorough { (depth2_count() + BATCH - 1) / BATCH } else { 0 };
+        Plan { deterministic: (depth1_count() + BATCH - 1) / BATCH + d2, max_cases: u64::MAX, budget_s: if tier == Tier::Quick { 45.0 } else { 900.0 } }
     }
     fn floors(&self, _tier: Tier) -> Vec<(String, u64)> {
         vec![("expressions_judged".into(), 5000), ("claims:definite-value".into(), 1000), ("claims:no-side-effects".into(), 1000)]
     }
-    fn gen(&mut self, _tier: Tier, seed: u64, index: u64) -> Option<Case> {
+    fn gen(&mut self, tier: Tier, seed: u64, index: u64) -> Option<Case> {
         let nb = (depth1_count() + BATCH - 1) / BATCH;
         if index < nb {
             return Some(json!({"kind": "depth1", "from": index * BATCH, "to": ((index + 1) * BATCH).min(depth1_count())}));
+        }
+        if tier == Tier::Thorough {
+            let nb2 = (depth2_count() + BATCH - 1) / BATCH;
+            if index < nb + nb2 {
+                let i = index - nb;
+                return Some(json!({"kind": "depth2", "from": i * BATCH, "to": ((i + 1) * BATCH).min(depth2_count())}));
+            }
         }
         let mut r = case_rng("C08", seed, index);
         let l = leaves();
@@ -347,6 +406,7 @@ impl Monitor for C08 {
     fn run(&mut self, case: &Case, cov: &mut Cov) -> Verdict {
         let exprs: Vec<String> = match case["kind"].as_str() {
             Some("depth1") => (case["from"].as_u64().unwrap_or(0)..case["to"].as_u64().unwrap_or(0)).filter_map(depth1).collect(),
+            Some("depth2") => (case["from"].as_u64().unwrap_or(0)..case["to"].as_u64().unwrap_or(0)).filter_map(depth2).collect(),
             _ => case["exprs"].as_array().map(|a| a.iter().filter_map(|x| x.as_str().map(|s| s.to_string())).collect()).unwrap_or_default(),
         };
         for e in exprs {
